@@ -158,6 +158,31 @@ func runProgram(m *procbuilder.Machine, lines []string) {
 		res = "PR panic"
 	}
 	out.Line("%s", res)
+	if !strings.HasPrefix(res, "PR ok") {
+		return
+	}
+	// Machine.Disassembler on the whole program (PD) and word by word (PS): the same instructions
+	words := strings.Fields(res)[2:]
+	dis := func(ws []string) string {
+		return common.Guard(func() string {
+			m.Program = procbuilder.Program{Slocs: ws}
+			d, err := m.Disassembler()
+			if err != nil {
+				return "err"
+			}
+			var ls []string
+			for _, l := range strings.Split(strings.TrimSpace(d), "\n") {
+				ls = append(ls, strings.Join(strings.Fields(l), " "))
+			}
+			return strings.Join(ls, " ; ")
+		})
+	}
+	out.Line("PD %s", dis(words))
+	var single []string
+	for _, w := range words {
+		single = append(single, dis([]string{w}))
+	}
+	out.Line("PS %s", strings.Join(single, " ; "))
 }
 
 func genProgram(r *common.Rng, m *procbuilder.Machine, s archSpec) []string {
